@@ -15,6 +15,7 @@ import os
 import shutil
 import re
 
+from cbimon import cbi
 from cbimon.oracles import cscan, gcc
 
 PROP = "C05"
@@ -56,7 +57,8 @@ def required_cells(tier):
               "comment-marker-in-literal", "quote-in-comment", "no-final-newline", "class:E1", "class:E2", "class:R",
               "via-FileParser", "gcc-crosscheck", "crlf-line-ends", "class:LONG", "line>65536",
               "c-header-first-reached-from-fortran", "unusual-line-break-characters", "coverage-export-of-identical-files",
-              "literal-in-diagnostic-directive"] + ["ext:" + e for e in C_FAMILY_EXTS]
+              "literal-in-diagnostic-directive", "class:CARRY", "file-rewritten-with-equal-size-and-mtime:>=32KiB"]
+    cells += ["long-plain-line-after:" + n for n, _ in CARRY_HEADS] + ["ext:" + e for e in C_FAMILY_EXTS]
     return cells
 
 
@@ -382,6 +384,75 @@ def random_text(rng):
     return t
 
 
+CARRY_HEADS = [("line-comment-continued", "// ref \\"), ("block-comment-star-continued", "/* ref *\\"), ("inside-block-comment", "/* ref"),
+               ("string-continued", "s = \"abc \\"), ("directive-continued", "# d e \\"), ("code-continued", "x = \\"),
+               ("slash-continued", "y = 4 /\\"), ("star-inside-comment-continued", "/* a **\\"), ("block-comment-closed", "/* c */"),
+               ("char-continued", "c = '\\"), ("plain", "int a;")]
+PLAIN_UNITS = ["a", "x = y ", "1 + ", "tbl ", "\t", "v,", "(){};"]
+
+
+def carry_over_texts():
+    """Deterministic: a physical line longer than 4096 / 8192 / 16384 characters that holds none of the characters
+    / * " ' \\ # (a generated table, a long expression, a run of blanks), placed directly after a line that leaves the
+    scanner in each of its carry-over states (comment or literal continued by backslash-newline, open block comment,
+    pending `/` or `*`), followed by ordinary lines."""
+    k = 0
+    for name, head in CARRY_HEADS:
+        for n in (4095, 4096, 4097, 5000, 8193, 20000):
+            unit = PLAIN_UNITS[k % len(PLAIN_UNITS)]
+            k += 1
+            body = (unit * (n // len(unit) + 1))[:n]
+            closer = {"inside-block-comment": " end */ int z;", "string-continued": "\";", "char-continued": "';"}.get(name, "")
+            yield name, n, "int first;\n" + head + "\n" + body + closer + "\nint b;\n/* c */ int d;\n"
+
+
+def rewritten_file_check(ctx, work):
+    """The same path analysed twice in one process, the file rewritten in between with the SAME size and the SAME
+    modification time (a generated table regenerated reproducibly; cp -p; touch -r): every analysis reads the text
+    that is there.  Files of 3 KiB .. 300 KiB; generation 2 turns every code line into a comment of the same length
+    and the other way round."""
+    from codebasin import file_parser, preprocessor
+    acc = ctx.acc
+    for k, nlines in enumerate((100, 1500, 2500, 10000)):
+        if (k + 3) % ctx.nshards != ctx.shard:
+            continue
+        gens = []
+        for gen in (0, 1, 0):
+            gens.append("".join(("int v%06d = %06d;\n" % (i, i)) if (i + gen) % 2 == 0 else ("// v%06d = %06d;;;;\n" % (i, i)) for i in range(nlines)))
+        assert len(gens[0]) == len(gens[1])
+        path = os.path.join(work, "table%d.c" % k)
+        stamp = 1_600_000_000_000_000_000
+        problems = []
+        for g, text in enumerate(gens):
+            with open(path, "w") as f:
+                f.write(text)
+            os.utime(path, ns=(stamp, stamp))
+            ref = cscan.scan(text)
+            try:
+                tree = file_parser.FileParser(path).parse_file(summarize_only=False)
+                seen = sorted(ln for node in tree.walk() if isinstance(node, preprocessor.CodeNode) for ln in node.lines)
+                state, _ = cbi.run_find(work, {"p": [cbi.entry(path)]})
+                lines, _ = cbi.per_line(state, path)
+                seen2 = sorted(lines)
+            except Exception as e:
+                problems.append({"kind": "exception", "generation": g, "observed": f"{type(e).__name__}: {e}"})
+                break
+            acc.hook("H-FileParser")
+            for what, got in (("FileParser", seen), ("finder.find", seen2)):
+                if got != ref.counted:
+                    problems.append({"kind": f"{what}: counted lines of a file rewritten with equal size and mtime", "generation": g,
+                                     "bytes": len(text), "expected_first": ref.counted[:6], "observed_first": got[:6],
+                                     "expected_n": len(ref.counted), "observed_n": len(got)})
+        cells = {"file-rewritten-with-equal-size-and-mtime", "class:REWRITE"}
+        if len(gens[0]) >= 32768:
+            cells.add("file-rewritten-with-equal-size-and-mtime:>=32KiB")
+        case = {"lines": nlines, "bytes": len(gens[0])}
+        if problems:
+            acc.violated({"input": case, "witness": dict(case, problems=problems[:4])}, cells=cells, cls="REWRITE", nontrivial=("rewrite", nlines))
+        else:
+            acc.held(cells=cells, cls="REWRITE", nontrivial=("rewrite", nlines))
+
+
 def run_shard(ctx):
     b = bounds(ctx.tier)
     work = ctx.subdir("w")
@@ -421,6 +492,12 @@ def run_shard(ctx):
         t = random_text(rng)
         if ctx.mine(i):
             check_text(ctx, t, "R", work, srng, via_file=True)
+    # CARRY: long plain lines after every carry-over state (deterministic)
+    for i, (name, n, t) in enumerate(carry_over_texts()):
+        if ctx.mine(i):
+            ctx.acc.cells["long-plain-line-after:" + name] += 1
+            check_text(ctx, t, "CARRY", work, srng, via_file=True)
+    rewritten_file_check(ctx, work)
     # LONG: physical lines longer than any plausible read buffer
     rng = ctx.rng("long")
     for i in range(b["long"]):
